@@ -136,7 +136,8 @@ class World:
 
     def final(self):
         mm = self.mman
-        rec = sorted([k[0].name, k[1], None if v is None else v.encode().hex()] for k, v in mm._recent_messages.items())
+        nm = lambda a: getattr(a, "name", repr(a))
+        rec = sorted([nm(k[0]), k[1], None if v is None else v.encode().hex()] for k, v in mm._recent_messages.items())
         return {"recent": rec, "now": self.loop.now_us(), "message_id": mm.message_id,
                 "timers": [d for d, s in self.loop.pending_timers()],
                 "piggy": sorted([k[0].name, k[1].hex(), v[0]] for k, v in mm._piggyback_opportunities.items()),
